@@ -249,14 +249,39 @@ func fixStdlib(interp *Interpreter) {
 		}
 		if !interp.unrestricted {
 			// In restricted mode, scripts can only access to a passed virtualized env, and can not write the real one.
-			getenv := func(key string) string { return interp.env[key] }
-			p["Clearenv"] = reflect.ValueOf(func() { interp.env = map[string]string{} })
+			getenv := func(key string) string {
+				interp.envMu.RLock()
+				defer interp.envMu.RUnlock()
+				return interp.env[key]
+			}
+			p["Clearenv"] = reflect.ValueOf(func() {
+				interp.envMu.Lock()
+				defer interp.envMu.Unlock()
+				interp.env = map[string]string{}
+			})
 			p["ExpandEnv"] = reflect.ValueOf(func(s string) string { return os.Expand(s, getenv) })
 			p["Getenv"] = reflect.ValueOf(getenv)
-			p["LookupEnv"] = reflect.ValueOf(func(key string) (s string, ok bool) { s, ok = interp.env[key]; return })
-			p["Setenv"] = reflect.ValueOf(func(key, value string) error { interp.env[key] = value; return nil })
-			p["Unsetenv"] = reflect.ValueOf(func(key string) error { delete(interp.env, key); return nil })
+			p["LookupEnv"] = reflect.ValueOf(func(key string) (s string, ok bool) {
+				interp.envMu.RLock()
+				defer interp.envMu.RUnlock()
+				s, ok = interp.env[key]
+				return
+			})
+			p["Setenv"] = reflect.ValueOf(func(key, value string) error {
+				interp.envMu.Lock()
+				defer interp.envMu.Unlock()
+				interp.env[key] = value
+				return nil
+			})
+			p["Unsetenv"] = reflect.ValueOf(func(key string) error {
+				interp.envMu.Lock()
+				defer interp.envMu.Unlock()
+				delete(interp.env, key)
+				return nil
+			})
 			p["Environ"] = reflect.ValueOf(func() (a []string) {
+				interp.envMu.RLock()
+				defer interp.envMu.RUnlock()
 				for k, v := range interp.env {
 					a = append(a, k+"="+v)
 				}
